@@ -180,4 +180,11 @@ theorem C13_verify_iff (F : Perm) (c s : Nat) (pv : G) (ps qs : List G) (m z : G
   rw [htr]
   rfl
 
+/-- (U) **the largest legal public key loads**: a server registered with all 256 tags serialises
+to `32 + 8 + 256·33 = 8488` bytes, which is within the size limit read from the source — so
+restoring an honest public key never fails on the size guard (completeness after serialisation) -/
+theorem C13_full_tag_key_within_limit :
+    Params.compressedPointLen + 8 + 256 * (1 + Params.compressedPointLen) ≤ Params.maxSerializedPkSize ∧
+    2 * 32 ≤ Params.maxSerializedProofSize := by decide
+
 end StarModel.Props.C13
